@@ -74,6 +74,20 @@ func Reject() []*e1.Program {
 			add(c.name+"-"+where, c.name, p)
 		}
 	}
+	// constructs that are harmless alone but interact with break/continue rewriting or with else-if chains
+	for name, body := range map[string]string{
+		"select-native-break-after-yield-in-loop": "for i := 0; i < 3; i++ {\n\tYIELD(i)\n\tch := make(chan int, 1)\n\tch <- i\n\tselect {\n\tcase v := <-ch:\n\t\ttr.V(1, v)\n\t\tif v == 1 {\n\t\t\tbreak\n\t\t}\n\t\ttr.E(2)\n\t}\n\tYIELD(10 + i)\n}\nRETNIL",
+		"select-native-continue-after-yield-in-loop": "for i := 0; i < 3; i++ {\n\tYIELD(i)\n\tch := make(chan int, 1)\n\tch <- i\n\tselect {\n\tcase v := <-ch:\n\t\tif v == 1 {\n\t\t\tcontinue\n\t\t}\n\t\ttr.E(2)\n\tdefault:\n\t}\n\tYIELD(10 + i)\n}\nRETNIL",
+		"range-func-native-break-after-yield-in-loop": "sq := func(yield func(int) bool) {\n\tfor i := 0; i < 3; i++ {\n\t\tif !yield(i) {\n\t\t\treturn\n\t\t}\n\t}\n}\nfor i := 0; i < 2; i++ {\n\tYIELD(i)\n\tfor v := range sq {\n\t\tif v == 1 {\n\t\t\tbreak\n\t\t}\n\t\ttr.V(1, v)\n\t}\n\tYIELD(10 + i)\n}\nRETNIL",
+		"range-ptr-array-native-continue-after-yield": "arr := [3]int{5, 6, 7}\nfor i := 0; i < 2; i++ {\n\tYIELD(i)\n\tfor j, v := range &arr {\n\t\tif j == 1 {\n\t\t\tcontinue\n\t\t}\n\t\ttr.V(1, v)\n\t}\n\tYIELD(10 + i)\n}\nRETNIL",
+		"yield-in-else-if-init": "for i := 0; i < 3; i++ {\n\tif i == 0 {\n\t\tYIELD(0)\n\t} else if YIELD(100 + i); i == 1 {\n\t\tYIELD(1)\n\t} else {\n\t\tYIELD(-i)\n\t}\n}\nRETNIL",
+		"yield-in-second-else-if-init": "x := tr.N(1, 4)\nif x == 0 {\n\ttr.E(2)\n} else if x == 1 {\n\tYIELD(1)\n} else if YIELD(50); x == 2 {\n\ttr.E(3)\n}\nYIELD(9)\nRETNIL",
+		"yield-in-else-if-init-of-native-if": "x := tr.N(1, 3)\nif x == 0 {\n\ttr.E(2)\n} else if YIELD(50); x == 1 {\n\ttr.E(3)\n}\nYIELD(9)\nRETNIL",
+		"fallthrough-native-switch-break-after-yield": "for i := 0; i < 3; i++ {\n\tYIELD(i)\n\tswitch i {\n\tcase 0:\n\t\ttr.E(1)\n\t\tfallthrough\n\tcase 1:\n\t\tif i == 1 {\n\t\t\tbreak\n\t\t}\n\t\ttr.E(2)\n\t}\n\tYIELD(10 + i)\n}\nRETNIL",
+	} {
+		p := Raw("x", "func §gen() ITER[int] GEN[int]{\n"+indent(body)+"}GEN\n"+StdEntry)
+		add(name, strings.SplitN(name, "-after", 2)[0], p)
+	}
 	// type-parameter typed range operand
 	add("range-type-param", "range-type-param", Raw("x", `
 func §each[S ~[]int](s S) ITER[int] GEN[int]{
@@ -155,6 +169,8 @@ func §E() {
 		{"goto", "n := 0\nagain:\nn++\nif n < 3 {\n\tgoto again\n}\nreturn n"},
 		{"labelled-break", "n := 0\nouter:\nfor a := 0; a < 3; a++ {\n\tfor b := 0; b < 3; b++ {\n\t\tn++\n\t\tif b == 1 {\n\t\t\tbreak outer\n\t\t}\n\t}\n}\nreturn n"},
 		{"select", "ch := make(chan int, 1)\nch <- 7\nselect {\ncase v := <-ch:\n\treturn v\ndefault:\n\treturn -7\n}"},
+		{"select-with-break", "ch := make(chan int, 1)\nch <- 7\nn := 0\nselect {\ncase v := <-ch:\n\tif v == 7 {\n\t\tbreak\n\t}\n\tn = v\ndefault:\n\tn = -7\n}\nreturn n + 1"},
+		{"select-with-break-in-loop", "ch := make(chan int, 3)\nch <- 7\nch <- 8\nn := 0\nfor i := 0; i < 2; i++ {\n\tselect {\n\tcase v := <-ch:\n\t\tif v == 7 {\n\t\t\tbreak\n\t\t}\n\t\tn += v\n\t}\n\tn += 100\n}\nreturn n"},
 		{"defer", "n := 1\ndefer func() { tr.V(70, n) }()\nn = 5\nreturn n"},
 		{"fallthrough", "n := 0\nswitch tr.N(3, 2) {\ncase 0:\n\tn += 1\n\tfallthrough\ncase 1:\n\tn += 10\n}\nreturn n"},
 		{"range-func", "n := 0\nsq := func(yield func(int) bool) {\n\tfor i := 0; i < 3; i++ {\n\t\tif !yield(i) {\n\t\t\treturn\n\t\t}\n\t}\n}\nfor v := range sq {\n\tn += v\n}\nreturn n"},
